@@ -14,7 +14,7 @@
 (***************************************************************************)
 EXTENDS FixedCompose, TLC, Json
 
-CONSTANTS Depth, Alphabet     \* Alphabet: "full" | "reph"
+CONSTANTS Depth, Alphabet     \* Alphabet: "full" | "small" | "classes" | "reph"
 
 VARIABLES o, s, h
 vars == <<o, s, h>>
@@ -26,9 +26,13 @@ RephValues == {<<"ক">>, <<"র">>, <<"আ">>, <<"া">>, <<"ি">>, <<HASANTA>
                REPH, ROFOLA, ZOFOLA}
 \* deeper histories over the characters the priority chain itself distinguishes (rule interactions need four and more keys)
 SmallValues == {<<"ক">>, <<"া">>, <<"ি">>, <<"ু">>, <<HASANTA>>, <<CHANDRA>>, <<"১">>, <<"(">>}
-Values == IF Alphabet = "full" THEN FullValues ELSE IF Alphabet = "small" THEN SmallValues ELSE RephValues
+\* class sweep: EVERY member of every class the rules name (all punctuation marks, consonants, vowels, signs, digits), short histories
+ClassValues == {<<c>> : c \in Punct \cup Consonants \cup IndepVowels \cup Kars \cup Digits}
+               \cup {<<HASANTA>>, <<CHANDRA>>, <<AULEN>>, <<ZWNJ>>, <<ANUSVARA>>, <<VISARGA>>, REPH, ROFOLA, ZOFOLA, KKHA}
+Values == IF Alphabet = "full" THEN FullValues ELSE IF Alphabet = "small" THEN SmallValues
+          ELSE IF Alphabet = "classes" THEN ClassValues ELSE RephValues
 
-OptSet == IF Alphabet \in {"full", "small"}
+OptSet == IF Alphabet \in {"full", "small", "classes"}
           THEN [vowel : BOOLEAN, chandra : BOOLEAN, kar : BOOLEAN, reph : BOOLEAN, karorder : {FALSE}]
           \* C13 quantifies over all other option settings, old vowel-sign order included (a sign may be waiting, hidden)
           ELSE [vowel : BOOLEAN, chandra : BOOLEAN, kar : BOOLEAN, reph : {TRUE}, karorder : BOOLEAN]
@@ -65,7 +69,7 @@ AutoVowelInv == o.vowel /\ ~o.reph /\ ~o.chandra =>
 
 \* "full": every maximal history.  "reph": every history that ends with the reph key (each reph event of
 \* each history is then replayed exactly once, as the last step of its prefix).
-EmitWhen == IF Alphabet \in {"full", "small"} THEN Len(h) = Depth \/ s.crash
+EmitWhen == IF Alphabet \in {"full", "small", "classes"} THEN Len(h) = Depth \/ s.crash
             ELSE h # <<>> /\ h[Len(h)].op = "key" /\ h[Len(h)].val = REPH
 Emit == EmitWhen =>
            PrintT(<<"REPLAY", ToJson([mc |-> "MC_Fixed", o |-> o, steps |-> h])>>)
